@@ -82,6 +82,13 @@ def run(ctx):
         for src in ("10.9.8.7", "10.9.8.8"):
             for _scan in range(3):
                 one(ctx, "rescan", rng, version, rng.randrange(2 ** 48), 6444, 0xAC, False, src, src, single=(_scan == 2))
+    # ... also when the host keeps its device id and address but answers differently from scan to scan (new port,
+    # name, serial number, protocol version after a firmware update / re-provisioning): each scan reports what THAT
+    # scan's reply says
+    for src in ("10.9.7.1", "10.9.7.2"):
+        did = rng.randrange(2 ** 48)
+        for version, port, single in ((2, 6444, False), (3, 6445, False), (3, 1234, True), (2, 6444, False)):
+            one(ctx, "rescan_changed_reply", rng, version, did, port, 0xAC, False, src, src, single=single)
     for _ in range(100 if not thorough else 3000):
         src = f"10.0.{rng.randrange(256)}.{rng.randrange(1, 255)}"
         one(ctx, "random", rng, rng.choice([2, 3]), rng.randrange(2 ** 48), rng.randrange(1, 65536), rng.randrange(256),
